@@ -676,6 +676,16 @@ func ReadRequest(b *bfe_bufio.Reader, maxUriBytes int) (req *Request, err error)
 	req.Header = Header(mimeHeader)
 	req.HeaderKeys = headerKeys
 
+	// RFC 7230: a field name is a token. A name with whitespace before the
+	// colon or any other invalid byte is rejected rather than forwarded: a
+	// backend that reads the line differently would see another field, which
+	// allows request smuggling.
+	for _, key := range headerKeys {
+		if strings.IndexFunc(key, isNotToken) >= 0 {
+			return nil, &badStringError{"malformed HTTP header name", key}
+		}
+	}
+
 	// RFC2616: Must treat
 	//	GET /index.html HTTP/1.1
 	//	Host: www.google.com
